@@ -87,6 +87,9 @@ def gen_case(rng, kind, nmax=7, malformed=False, directed=None):
         case['i0'] = [gc.order[0]]; case['rho'] = F(1, 4)
     elif r < 0.12:
         case['i0'] = None; case['rho'] = rng.choice([None, F(1, 4), F(1, 2), F(3, 8), F(1)])
+        if kind != 'SIS' and case['rho'] is not None and rng.random() < 0.4:
+            # rho together with initial_recovereds: rejected with EoNError (model and code)
+            case['r0'] = rng.sample(gc.order, min(n, rng.randint(0, 2)))
     else:
         k = rng.randint(1, min(3, n)) if rng.random() < 0.95 else 0
         sel = rng.sample(gc.order, k)
@@ -475,6 +478,10 @@ def oracle_bfs(case, impl, m=None):
     if case['rho'] is not None and case['i0'] is not None:
         if not (impl['status'] == 'EXC' and impl['err'] == 'EoNError'):
             bad.append(('rho+initial_infecteds', 'giving both rho and initial_infecteds was not rejected with EoNError (got %s %s)' % (impl['status'], impl.get('err'))))
+        return bad
+    if case['rho'] is not None and case['r0'] is not None and kind != 'SIS':
+        if not (impl['status'] == 'EXC' and impl['err'] == 'EoNError'):
+            bad.append(('rho+initial_recovereds', 'giving both rho and initial_recovereds was not rejected with EoNError (got %s %s)' % (impl['status'], impl.get('err'))))
         return bad
     gc = case['gc']; G = gc.G; im = gc.idmap; n = len(gc.order)
     I0, R0, err = initial_sets(case, impl, m)
